@@ -17,6 +17,21 @@ CHECKS = {
              "Overlap.construct_array_contraction of /repo on every run. The 1e-8 accuracy clause is decided on the "
              "generated inputs only.",
         design="5 C01", technique="Coq proof (induction over the recursion) + model/implementation correspondence"),
+    "C19": dict(
+        text="PARTIAL. Coq theorems about an executable state-machine model of 'purity' (Model/Effects.v; world = "
+             "contents of every argument object, every shell incl. its cached norm_cont, the numpy error state), for "
+             "every deterministic library and every history, by induction over operation lists: public calls "
+             "(returning or raising) leave the world identical; a call's outcome is a function of the argument "
+             "values and the error state only, so repeating it gives the same outcome; an update changes exactly "
+             "one parameter and leaves norm_cont stale, assign_norm_cont makes the shell equal to a freshly "
+             "constructed one; the error state is restored. The model cannot exhibit NumPy aliasing: that gbasis "
+             "conforms to it is OBSERVED, not proved, by a monitor that runs the model (extracted runner, command "
+             "210, re-evaluated in Coq by vm_compute) and the implementation on the same random histories of 1-30 "
+             "operations over shared objects, with bitwise snapshots of every argument and of numpy.geterr() around "
+             "every call, bitwise comparison of repeated results, shares_memory / scribbling of results, and the "
+             "final world compared with the model's.",
+        design="5 C19", technique="Coq proof about an effects model + runtime monitor (model/implementation "
+                                  "correspondence on operation histories)"),
 }
 NOT_YET = {}
 
